@@ -109,6 +109,9 @@ pub enum AllocEvent {
     Alloc { ptr: usize, size: usize, charged: usize, counter: usize },
     Dealloc { ptr: usize, size: usize, charged: usize, counter: usize },
     Fail { size: usize, charged: usize, counter: usize },
+    /// a request has just been charged; it will be followed by `Alloc` or `Fail`, possibly with
+    /// the `Dealloc`s of a collection in between
+    Request { charged: usize, counter: usize },
 }
 
 /// Hooks living inside `CaoLangAllocator`.
@@ -142,6 +145,11 @@ impl AllocHooks {
                 next_gc.store(usize::MAX, std::sync::atomic::Ordering::Relaxed);
                 set.contains(&idx)
             }
+        }
+    }
+    pub(crate) fn on_request(&mut self, charged: usize, counter: usize) {
+        if self.record_events {
+            self.events.push(AllocEvent::Request { charged, counter });
         }
     }
     pub(crate) fn on_alloc(&mut self, ptr: usize, size: usize, charged: usize, counter: usize) {
